@@ -645,6 +645,25 @@ def _array(ex, args, kwargs, fr):
                     out = ite_val(z_int(ix[0]) == i, row(rows_[i]), out)
                 return out
             return new_array(ex, (len(rows_), len(rows_[0])), d, elem2)
+    if items is not None and items and all(ex.is_arr(x) for x in items):
+        # np.array([a0, a1, ...]) of arrays of one shape: stacked along a new leading axis (library contract; arrays of
+        # different shapes raise ValueError in numpy >= 1.24)
+        cells = [cell(ex, x) for x in items]
+        if all(len(c.shape) == len(cells[0].shape) for c in cells):
+            for c in cells[1:]:
+                if not ex.st.branch(shape_eq(cells[0].shape, c.shape)):
+                    ex.throw("ValueError", "setting an array element with a sequence. The requested array has an inhomogeneous shape")
+            d = dtype or cells[0].dtype
+            els = [c.elem for c in cells]
+
+            def stacked(ix, els=els, d=d):
+                rest = tuple(ix[1:])
+                out = cast_elem(ex, els[-1](rest), d) if dtype is not None else els[-1](rest)
+                for j in range(len(els) - 2, -1, -1):
+                    xj = cast_elem(ex, els[j](rest), d) if dtype is not None else els[j](rest)
+                    out = ite_val(z_int(ix[0]) == j, xj, out)
+                return out
+            return new_array(ex, (len(items),) + tuple(cells[0].shape), d, stacked)
     h = ex.cfg.lib_overrides.get(("np.array_of",))
     if h is not None:
         return h(ex, v, dtype, fr)
@@ -1084,6 +1103,34 @@ def _rng_seed(ex, args, kwargs, fr):
         ex.st.ghost["RNG"] = rng_seeded(z_int(int_of(s)))
     ex.st.events.append(("rng_seed", s))
     return NONE
+
+
+# The legacy generator's full state (np.random.get_state) = bit-generator state + the cached second Gaussian deviate
+# (has_gauss, cached_gaussian). `np.random.get_bit_generator().state` exposes ONLY the first part: restoring it leaves
+# the cache as it is. rng_bg projects the full state, rng_with_bg replaces that part; the only law assumed is
+# rng_with_bg(S, rng_bg(S)) == S.
+rng_bg = z3.Function("rng_bg", z3.IntSort(), z3.IntSort())
+rng_with_bg = z3.Function("rng_with_bg", z3.IntSort(), z3.IntSort(), z3.IntSort())
+
+
+@npfn("numpy.random.get_bit_generator")
+def _rng_get_bitgen(ex, args, kwargs, fr):
+    return VOpaque("bitgen", None, {})
+
+
+def bitgen_get_state(ex):
+    return VOpaque("bgstate", rng_bg(rng_get(ex)), {})
+
+
+def bitgen_set_state(ex, val):
+    if not (isinstance(val, VOpaque) and val.kind == "bgstate"):
+        raise Unsupported("bit_generator.state = <unknown object>")
+    cur = rng_get(ex)
+    new = rng_with_bg(cur, val.t)
+    ex.st.assume(z3.Implies(val.t == rng_bg(cur), new == cur))
+    ex.st.ghost["RNG"] = new
+    ex.st.events.append(("rng_set_bg_state", val.t))
+    return None
 
 
 def rng_draw(ex):
